@@ -254,7 +254,7 @@ UNITS = [
 VERIFIED_CALLEES = ("_ActionSubCommands.get_subcommands", "_ActionSubCommands.handle_subcommands")
 LEVEL = "other"
 TECHNIQUE = "contract-based deductive verification (VCs from the real AST; complete case analysis for <= 3 declared subcommands) + bounded run-time contract checking"
-LEVEL_TEXT = "under construction"
+LEVEL_TEXT = "Proved by complete case analysis for 1-3 declared subcommands (every combination of explicit key, sections, prefix, required, failing / single mode): get_subcommands returns the subcommand named explicitly else the first with settings, stores it under the key, fails exactly when required and undetermined; handle_subcommands merges so that given settings override the sub-parser's defaults/environment and recurses with prefix key + '.'; the argv action stores name and sub-parser result. The clause `no section of another subcommand remains` is refuted on the shipped code for one case (known finding). Bounded only: trees of depth <= 2(3) x sources."
 LEVEL_NOTE = "under construction"
 EXPLANATION = "under construction"
 ASSUMPTIONS = []
